@@ -800,6 +800,11 @@ func (vfs *MemFS) Rename(oldpath, newpath string) error {
 		return &os.LinkError{Op: op, Old: oldpath, New: newpath, Err: oErr}
 	}
 
+	if oChild == node(oParent) {
+		// The root directory is its own parent and can't be moved.
+		return &os.LinkError{Op: op, Old: oldpath, New: newpath, Err: vfs.err.InvalidArgument}
+	}
+
 	nParent, nChild, nPI, nErr := vfs.searchNode(newpath, slmLstat)
 	if nErr != vfs.err.FileExists && !vfs.isNotExist(nErr) || vfs.isNotExist(nErr) && !nPI.IsLast() {
 		return &os.LinkError{Op: op, Old: oldpath, New: newpath, Err: nErr}
